@@ -36,6 +36,16 @@ void vp_body(u32 i) {
   VP_CHECK(!captured, "a body invocation started although an exception of this algorithm call had already been captured");
   if ((THROW >> i) & 1) { vp_throw_user(&ti_user); if (!nthrown) thrown0 = vp_exc; nthrown++; captured = 1; }
 }
+/* user constructors (Range copy / Range split / Body copy) executed by the library while it creates tasks: the k-th such call throws
+   (CTHROW mask over the global call index; 0 unless the harness is built with -DCTOR).  Calls 0 and 1 are the copies made for the root
+   task inside start_for::run, before any wait exists. */
+u32 CTHROW; int n_ctor_calls, ctor_threw, ctor_threw_pre_root;
+void vp_may_throw_ctor(u32 kind) {
+  int idx = n_ctor_calls++;
+  VP_CHECK(!wait_seen, "a user constructor was called after the algorithm call had returned");
+  if (idx < 16 && ((CTHROW >> idx) & 1)) {
+    vp_throw_user(&ti_user); if (!nthrown) thrown0 = vp_exc; nthrown++; captured = 1; ctor_threw = 1; if (idx < 2) ctor_threw_pre_root = 1; }
+}
 void vp_join(u32 llo, u32 lhi, u32 rlo, u32 rhi) {
   VP_CHECK(!captured, "join called although the group had been cancelled by an exception");
   VP_CHECK(!wait_seen, "join after the call returned");
@@ -53,13 +63,20 @@ void vp_wait_result(u32 g, u32 st, u32 threw, u32 unused) {
   VP_ASSERT((int)threw == (nthrown > 0), "the algorithm call must rethrow iff a body threw (exception swallowed or invented)");
   VP_ASSERT(nthrown <= 1, "a second body invocation threw: the group was not stopped");
   if (threw) VP_ASSERT(caught_at_wait == thrown0 && thrown0 != 0, "the exception rethrown is not the one thrown by the body");
-  VP_ASSERT(n_released == 1, "the wait_context of the call must be released exactly once");
+  VP_ASSERT(n_released == (ctor_threw_pre_root ? 0 : 1), "the wait_context of the call must be released exactly once");
   VP_ASSERT(vp_pool_left() == 0, "tasks left in the pool when the call returned");
-  VP_ASSERT(n_task_alloc == n_task_free, "a task / tree node was leaked or released twice (checked when the call returns)");
+  if (!ctor_threw) VP_ASSERT(n_task_alloc == n_task_free, "a task / tree node was leaked or released twice (checked when the call returns)");
+  else {
+    VP_ASSERT(n_task_alloc == n_task_free, "pfor: storage handed out by r1::allocate never released after a Range/Body constructor threw inside small_object_allocator::new_object (start_for under construction leaked)");
+    VP_ASSERT(n_task_alloc - n_task_free <= 1, "pfor: more than the one allocation under construction was lost after a constructor threw (tree node / task leaked)");
+  }
   VP_ASSERT(n_live[0] == 1 && n_live[1] == 1, "library-made Range/Body copies still alive (or the user's objects destroyed) when the call returned");
 }
 int main(void) {
   THROW = (u32)vp_nd_range(0, 65535) & ((1u << N) - 1);      /* which elements' body invocations throw: every subset */
+#ifdef CTOR
+  CTHROW = (u32)vp_nd_range(0, 65535);                        /* which Range copy / Range split / Body copy calls throw: every subset of the first 16 */
+#endif
   vp_world_setup();
 #if ALGO == 1
   vp_pfor(N);
@@ -77,8 +94,8 @@ int main(void) {
   VP_ASSERT(vp_exc == 0, "pending exception left behind");
   VP_ASSERT(vp_exc_destroyed == vp_exc_thrown, "an exception object was leaked or destroyed twice");
   VP_ASSERT(n_eptr_alloc == n_eptr_free, "tbb_exception_ptr storage leaked or freed twice");
-  VP_ASSERT(vp_rethrows == wait_threw, "the captured exception is rethrown exactly once");
-  VP_ASSERT(n_released == 1, "wait_context released exactly once");
+  VP_ASSERT(vp_rethrows == (wait_threw && !ctor_threw_pre_root), "the captured exception is rethrown exactly once");
+  VP_ASSERT(n_released == (ctor_threw_pre_root ? 0 : 1), "wait_context released exactly once");
   VP_REACHED();
   return 0;
 }
